@@ -25,6 +25,7 @@
   correspondence check only; nor anything about the pseudo-random draws themselves.
   Proofs: `CirkitModel.Proofs.Norm`.
 -/
+import Mathlib.Tactic.NormNum
 import CirkitModel.Proofs.Bridge
 import CirkitModel.Proofs.Operators
 import CirkitModel.Proofs.Norm
